@@ -167,27 +167,118 @@ def _run_pool(fn, tasks, workers, hard_s):
     return out
 
 
+def _run_portfolio(groups, workers, hard_s):
+    """groups: {oid: [(fn, task), ...]}; the first definitive (sat/unsat) answer of a group wins and its
+    siblings are killed.  returns {oid: (backend_label, result tuple)}"""
+    import multiprocessing as mp
+
+    ctx = mp.get_context("fork")
+    queue = []
+    for oid, members in groups.items():
+        for label, fn, task in members:
+            queue.append((oid, label, fn, task))
+    # interleave: first member of every group first
+    queue.sort(key=lambda q: [m[0] for m in groups[q[0]]].index(q[1]))
+    queue.reverse()
+    running = {}
+    final = {}
+    left = {oid: len(m) for oid, m in groups.items()}
+    best_unknown = {}
+    while queue or running:
+        while queue and len(running) < workers:
+            oid, label, fn, task = queue.pop()
+            if oid in final:
+                left[oid] -= 1
+                continue
+            pc, cc = ctx.Pipe(duplex=False)
+            pr = ctx.Process(target=_child, args=(fn, task, cc), daemon=True)
+            pr.start()
+            cc.close()
+            _live.add(pr)
+            running[pr] = (oid, label, pc, time.time())
+        done = []
+        for pr, (oid, label, pc, t0) in running.items():
+            res = None
+            if pc.poll(0):
+                try:
+                    res = pc.recv()
+                except EOFError:
+                    res = (oid, "error", time.time() - t0, None, "worker died")
+            elif not pr.is_alive():
+                res = pc.recv() if pc.poll(0.05) else (oid, "error", time.time() - t0, None, "worker died")
+            elif time.time() - t0 > hard_s or oid in final:
+                pr.kill()
+                res = (oid, "unknown", time.time() - t0, None, "killed")
+            if res is not None:
+                done.append((pr, oid, label, res))
+        for pr, oid, label, res in done:
+            _, _, pc, _ = running.pop(pr)
+            pc.close()
+            pr.join(timeout=1)
+            _live.discard(pr)
+            left[oid] -= 1
+            if oid in final:
+                continue
+            if res[1] in ("sat", "unsat"):
+                final[oid] = (label, res)
+            else:
+                best_unknown[oid] = (label, res)
+                if left[oid] <= 0:
+                    final[oid] = best_unknown[oid]
+        if not done:
+            time.sleep(0.01)
+    for oid in groups:
+        if oid not in final:
+            final[oid] = best_unknown.get(oid, ("z3", (oid, "unknown", 0.0, None, "no answer")))
+    return final
+
+
 def discharge(tasks, timeout_ms=60000, seed=0, cvc5_fallback=True, cvc5_recheck=False, workers=None):
     """tasks: list of (oid, smt2 text, expect).  returns {oid: Result}; status in
-    proved | refuted | unknown | error  (for expect == 'sat' tasks: covered | vacuous | unknown)."""
+    proved | refuted | unknown | error  (for expect == 'sat' tasks: covered | vacuous | unknown).
+
+    Phase 1: z3 with a short budget (most obligations take milliseconds).  Phase 2: the rest as a portfolio
+    - z3 with two seeds and cvc5 side by side; the first definitive answer wins (solver run times vary by an
+    order of magnitude with the seed, so a portfolio keeps verdicts stable under load)."""
     results = {}
     workers = workers or min(16, os.cpu_count() or 4)
     expect = {oid: exp for oid, _, exp in tasks}
     smts = {oid: smt for oid, smt, _ in tasks}
-    hard = timeout_ms / 1000 * 1.25 + 5
-    pending_cvc5 = []
-    for oid, r, secs, model, reason in _run_pool(_z3_task, [(oid, smt, timeout_ms, seed) for oid, smt, _ in tasks], workers, hard):
-        if r == "unknown" and cvc5_fallback:
-            pending_cvc5.append((oid, secs))
+    quick_ms = min(5000, timeout_ms)
+
+    def budget(oid):
+        if expect[oid] != "unsat":
+            return min(timeout_ms, 8000)   # reachability covers are sanity checks: unknown is not a failure
+        if oid.startswith("canary:"):
+            return min(timeout_ms, 20000)  # a canary only needs one refuted obligation
+        return timeout_ms
+
+    ztasks = [(oid, smt, min(quick_ms, budget(oid)), seed) for oid, smt, exp in tasks]
+    ztasks.sort(key=lambda t: expect[t[0]] != "unsat")
+    phase2 = []
+    for oid, r, secs, model, reason in _run_pool(_z3_task, ztasks, workers, quick_ms / 1000 * 1.5 + 5):
+        if r == "unknown" and budget(oid) > quick_ms:
+            phase2.append((oid, secs))
             continue
         results[oid] = Result(oid, r, "z3", secs, model, reason)
-    if pending_cvc5:
-        secs0 = dict(pending_cvc5)
-        for oid, r, secs, model, reason in _run_pool(_cvc5_task, [(oid, smts[oid], timeout_ms, seed) for oid, _ in pending_cvc5],
-                                                    workers, hard + 10):
-            results[oid] = Result(oid, r, "cvc5" if r != "unknown" else "z3+cvc5", secs0[oid] + secs, model, reason)
+    if phase2:
+        secs0 = dict(phase2)
+        groups = {}
+        for oid, _ in phase2:
+            b = budget(oid)
+            members = [("z3", _z3_task, (oid, smts[oid], b, seed)), ("z3/seed+1", _z3_task, (oid, smts[oid], b, seed + 1))]
+            if cvc5_fallback and expect[oid] == "unsat":
+                members.insert(1, ("cvc5", _cvc5_task, (oid, smts[oid], b, seed)))
+            groups[oid] = members
+        for oid, (label, (_, r, secs, model, reason)) in _run_portfolio(groups, workers, timeout_ms / 1000 * 1.25 + 10).items():
+            if r == "sat" and model is None and expect[oid] == "unsat":
+                # cvc5 found a counterexample first: ask z3 for a model with the remaining budget (needed for replay)
+                _, r2, s2, model2, _ = _run_pool(_z3_task, [(oid, smts[oid], budget(oid), seed + 2)], 1, budget(oid) / 1000 + 10)[0]
+                if r2 == "sat":
+                    model, secs = model2, secs + s2
+            results[oid] = Result(oid, r, label, secs0[oid] + secs, model, reason)
     if cvc5_recheck:
-        todo = [oid for oid, res in results.items() if res.status == "unsat" and res.backend == "z3" and expect[oid] == "unsat"]
+        todo = [oid for oid, res in results.items() if res.status == "unsat" and res.backend.startswith("z3") and expect[oid] == "unsat"]
         for oid, r, secs, _, _ in _run_pool(_cvc5_task, [(oid, smts[oid], min(timeout_ms, 120000), seed) for oid in todo], workers, 140):
             results[oid].recheck = r
             if r == "sat":
